@@ -245,6 +245,21 @@ macro_rules! inst {
 //@ prefix=canary kind=canary clause=vacuity canary: false claim behind the same state constructor must fail
 /*INSTANCES*/
 
+/// clone over a ZERO-SIZED element type with observable Clone / Drop (the generated instances skip
+/// it: std's to_vec needs an explicit unwinding bound there)
+#[kani::proof]
+#[kani::unwind(6)]
+fn p_clone_zst_counted() {
+    let (cv, o) = state::<Zd, 2, 3>();
+    assert!(created() == 2 && drops() == 0);
+    let c2 = cv.clone();
+    same(&c2, &o);
+    assert!(created() == 4 && drops() == 0, "C11 clone creates exactly one new element per source element (zero-sized elements included)");
+    drop(cv);
+    assert!(drops() == 2, "C11 dropping the source drops exactly its elements");
+    finish(c2);
+    kani::cover!(true, "reaches end");
+}
 #[kani::proof]
 fn p_from_default() {
     let cv: CVec<u64> = CVec::default();
@@ -314,6 +329,23 @@ fn stored<const LEN: usize, const CAP: usize>() -> CVec<u64> {
     let (cv, _o) = state::<u64, LEN, CAP>();
     let cv = core::mem::ManuallyDrop::new(cv);
     CVec { data: cv.data, len: cv.len, capacity: cv.capacity, drop_fn: Some(rec_drop), reserve_fn: rec_reserve }
+}
+/// "out-of-range insert panics WITHOUT MODIFYING the vector": the state after a panic cannot be
+/// observed under Kani, but on a FULL vector any modification before the index check must first
+/// grow the buffer through the stored function — which therefore must not be reached
+extern "C" fn oob_reserve(v: &mut CVec<u64>, n: usize) -> usize {
+    kani::cover!(true, "MUST-NOT-REACH: the vector was grown (modified) before the out-of-range index was rejected");
+    cglue_reserve_vec::<u64>(v, n)
+}
+#[kani::proof]
+#[kani::should_panic]
+fn p_oob_insert_untouched_full() {
+    let mut cv = stored::<2, 2>();
+    cv.reserve_fn = oob_reserve;
+    let i: usize = kani::any();
+    kani::assume(i > 2);
+    cv.insert(i, 1);
+    kani::cover!(true, "MUST-NOT-REACH: insert returned for an out-of-range index");
 }
 #[kani::proof]
 fn p_stored_drop() {
